@@ -76,4 +76,7 @@ def run(tier):
         rt_probe.c20_nostd(ck, g, tier)
     except ImportError:
         ck.note_inconclusive("level-R no_std crate not built yet")
+    if tier == "thorough":
+        from vlib import cov
+        cov.report(ck, "C20", srcs)
     return ck.finish()
